@@ -152,6 +152,18 @@ Fixpoint stem (s : str) : str :=
   | c :: s' => if N.eqb c 46 then [] else c :: stem s'
   end.
 
+(** Run time: the key is template.name.split(".")[0], and BaseLoader.load names
+    the template Path(full_name).name - the last path component of the name it
+    was asked for (loader.py:83-87). So 'snippets/card.liquid' binds `card` at run
+    time while partial_scope() declares 'snippets/card' (harmless: the declared
+    name cannot be written as a variable, `card` is over-reported as a global). *)
+Fixpoint basename_acc (acc s : str) : str :=
+  match s with
+  | [] => acc
+  | c :: s' => if N.eqb c 47 then basename_acc [] s' else basename_acc (acc ++ [c]) s'
+  end.
+Definition rt_stem (name : str) : str := stem (basename_acc [] name).
+
 Definition n_expressions (n : node) : list expr :=
   match n with
   | NOutput _ e | NEcho _ e | NAssign _ _ e => [e]
@@ -936,7 +948,7 @@ Section Interp.
              | None => rtemplate name nodes
              | Some v =>
                  ev v >>> mdo k <- pop ;;;
-                 let key := match alias with Some a => a | None => stem name end in
+                 let key := match alias with Some a => a | None => rt_stem name end in
                  if N.eqb k 0 then upd (bind_top key) >>> rtemplate name nodes
                  else repeatM (N.to_nat k - 1) (upd (bind_top key) >>> rtemplate name nodes)
              end) >>>
@@ -951,7 +963,7 @@ Section Interp.
              | None => isolated (mk []) (rtemplate name nodes)
              | Some v =>
                  ev v >>> mdo k <- pop ;;;
-                 let key := match alias with Some a => a | None => stem name end in
+                 let key := match alias with Some a => a | None => rt_stem name end in
                  if loop && negb (N.eqb k 0)
                  then isolated (mk [forloop_s; key]) (repeatM (N.to_nat k - 1) (rtemplate name nodes))
                  else isolated (mk [key]) (rtemplate name nodes)
